@@ -43,7 +43,9 @@ ASAN_FLAGS = [
     "-fno-omit-frame-pointer",
 ]
 # memory-safety subset of UBSan only (see DESIGN.md section 2)
-UBSAN_FLAGS = ["-fsanitize=bounds,null,return,unreachable", "-fno-sanitize-recover=undefined"]
+# bounds/null reports are recoverable: the report hook (engine/report.hpp) sets the sanitizer flag, the explorers attribute it to the
+# (state, operation) they are executing, and run_harness() turns any report nobody attributed into a violation of its own
+UBSAN_FLAGS = ["-fsanitize=bounds,null,return,unreachable", "-fno-sanitize-recover=undefined", "-fsanitize-recover=bounds,null"]
 ASAN_ENV = "handle_segv=0:handle_abort=0:handle_sigfpe=0:handle_sigbus=0:handle_sigill=0:halt_on_error=0:detect_leaks=1:allocator_may_return_null=1:abort_on_error=0:exitcode=0"
 
 
@@ -224,6 +226,23 @@ class Ctx:
                 allow_rc = tuple(allow_rc) + (3,)
             elif t_ == "done":
                 done = True
+        n_viol = sum(1 for x in recs if x.get("t") == "viol")
+        if not n_viol:
+            # a sanitizer report that no harness step claimed (ASan/UBSan run in recover mode with exit code 0): never silent
+            san = [l for l in err.splitlines() if "ERROR: AddressSanitizer" in l or ": runtime error: " in l or "ERROR: LeakSanitizer" in l]
+            if san:
+                what = re.sub(r"0x[0-9a-f]+|==\d+==", "", san[0]).strip()
+                kind = "leak" if "LeakSanitizer" in san[0] else "ubsan" if "runtime error" in san[0] else "asan:" + (what.split("AddressSanitizer:")[1].split()[0] if "AddressSanitizer:" in what else "report")
+                self.violation("%s/%s/unattributed-sanitizer-report/%s" % (self.pid, tag or os.path.basename(binary), kind),
+                               "harness run %s: %d sanitizer report(s) outside any reported step; first: %s" % (" ".join(args)[:200], len(san), what[:300]),
+                               harness=tag or os.path.basename(binary), args=list(args), src=src, build=build)
+                n_viol = 1
+        if (not done or r.returncode not in allow_rc) and n_viol:
+            # the run died after it had reported violations (typically memory corrupted by the violating step): keep what was
+            # reported - bin/check replays every counterexample before believing it - and record that the space was not finished
+            self.cap("%s %s: run ended abnormally (rc=%s) after reporting %d violation(s); the rest of the space was not explored" % (
+                tag or os.path.basename(binary), " ".join(args)[:120], r.returncode, n_viol))
+            return recs
         if not done or r.returncode not in allow_rc:
             raise HarnessError("harness %s %s ended abnormally rc=%s (no 'done' record=%s)\nstdout tail:\n%s\nstderr tail:\n%s" % (
                 binary, " ".join(args), r.returncode, not done, out[-1500:], err[-3000:]))
